@@ -74,6 +74,8 @@ type Case struct {
 	Busy      bool   `json:"busy,omitempty"`
 	Serve     string `json:"serve,omitempty"`
 	TailStart int    `json:"tail_start,omitempty"`
+	// protocol-respecting histories end with a fair drain tail starting here (0 = none)
+	DrainTail int `json:"drain_tail,omitempty"`
 	Events  []Event  `json:"events"`
 	Coq     string   `json:"coq"`
 }
@@ -319,6 +321,58 @@ func generate(rng *vh.Rng, hostile bool) Case {
 	if rng.Intn(3) != 0 {
 		wCtl = 3 + rng.Intn(8)
 	}
+	accIn, accOut := 0, 0
+	crashedAny := false
+	acksSeen := 0
+	do := func(e Event) Event {
+		if e.Msg != nil {
+			e.Msg.Fix()
+		}
+		crashed := r.apply(&e)
+		c.Events = append(c.Events, e)
+		if crashed {
+			crashedAny = true
+			return e
+		}
+		// bookkeeping of what the environment knows
+		if e.E == "r" && e.Got != nil {
+			o := outstanding{id: e.Got.ID, read: e.Got.Kind == "KRead", size: int(e.Got.Size)}
+			switch e.Port {
+			case "RO":
+				pendIn = append(pendIn, o)
+			case "DI":
+				pendOut = append(pendOut, o)
+			case "CT":
+				if e.Got.Flags == flDrainRsp {
+					acksSeen++
+				}
+				if phase == 1 && e.Got.Flags == flDrainRsp {
+					phase = 2
+				} else if phase == 3 && e.Got.Flags == flRestartRsp {
+					phase = 0
+				}
+			}
+		}
+		if e.E == "d" && e.Acc != nil && *e.Acc {
+			switch e.Port {
+			case "RI":
+				accIn++
+			case "DO":
+				accOut++
+			case "RO":
+				markAnswered(&pendIn, &ansIn, e.Msg.RspTo)
+			case "DI":
+				markAnswered(&pendOut, &ansOut, e.Msg.RspTo)
+			case "CT":
+				if phase == 0 && e.Msg.Flags == flDrainReq {
+					phase = 1
+				} else if phase == 2 && e.Msg.Flags == flRestartReq {
+					phase = 3
+				}
+			}
+		}
+		return e
+	}
 	for i := 0; i < n; i++ {
 		var e Event
 		switch rng.Pick(wReqI, wReqO, wRsp, wRsp, 25, 10, 10, 6, 6, wCtl, wCtl) {
@@ -397,42 +451,53 @@ func generate(rng *vh.Rng, hostile bool) Case {
 		case 10:
 			e = Event{E: "r", Port: "CT"}
 		}
-		if e.Msg != nil {
-			e.Msg.Fix()
-		}
-		crashed := r.apply(&e)
-		c.Events = append(c.Events, e)
-		if crashed {
+		do(e)
+		if crashedAny {
 			break
 		}
-		// bookkeeping of what the environment knows
-		if e.E == "r" && e.Got != nil {
-			o := outstanding{id: e.Got.ID, read: e.Got.Kind == "KRead", size: int(e.Got.Size)}
-			switch e.Port {
-			case "RO":
-				pendIn = append(pendIn, o)
-			case "DI":
-				pendOut = append(pendOut, o)
-			case "CT":
-				if phase == 1 && e.Got.Flags == flDrainRsp {
-					phase = 2
-				} else if phase == 3 && e.Got.Flags == flRestartRsp {
-					phase = 0
+	}
+	// ---- fair drain tail of a protocol-respecting history: request a drain (after
+	// finishing a handshake in progress), stop sending requests, and in every round tick
+	// once, empty all four data out-buffers, answer every forwarded request and look at the
+	// control port. The engine must acknowledge the drain once nothing is in flight.
+	if !hostile && !crashedAny {
+		c.DrainTail = len(c.Events)
+		rounds := 2*((accIn-len(ansIn))+(accOut-len(ansOut))) + 14
+		before := acksSeen
+		if phase == 2 || phase == 3 {
+			before = -1 // the acknowledgement of an earlier drain does not count
+		}
+		for k := 0; k < rounds && !crashedAny; k++ {
+			switch phase {
+			case 0:
+				m := vh.Msg{Kind: "KCtrl", Src: 30, Dst: pCT, Flags: flDrainReq}
+				do(Event{E: "d", Port: "CT", Msg: &m})
+				if before < 0 {
+					before = acksSeen
+				}
+			case 2:
+				m := vh.Msg{Kind: "KCtrl", Src: 30, Dst: pCT, Flags: flRestartReq}
+				do(Event{E: "d", Port: "CT", Msg: &m})
+			}
+			do(Event{E: "tick"})
+			for _, p := range []string{"RO", "DI", "RI", "DO"} {
+				for !crashedAny {
+					if e := do(Event{E: "r", Port: p}); e.None || e.Crash {
+						break
+					}
 				}
 			}
-		}
-		if e.E == "d" && e.Acc != nil && *e.Acc {
-			switch e.Port {
-			case "RO":
-				markAnswered(&pendIn, &ansIn, e.Msg.RspTo)
-			case "DI":
-				markAnswered(&pendOut, &ansOut, e.Msg.RspTo)
-			case "CT":
-				if phase == 0 && e.Msg.Flags == flDrainReq {
-					phase = 1
-				} else if phase == 2 && e.Msg.Flags == flRestartReq {
-					phase = 3
-				}
+			for _, o := range append([]outstanding{}, pendIn...) {
+				m := rspFor(rng, o, 100, pRO)
+				do(Event{E: "d", Port: "RO", Msg: &m})
+			}
+			for _, o := range append([]outstanding{}, pendOut...) {
+				m := rspFor(rng, o, 200, pDI)
+				do(Event{E: "d", Port: "DI", Msg: &m})
+			}
+			do(Event{E: "r", Port: "CT"})
+			if before >= 0 && acksSeen > before {
+				break
 			}
 		}
 	}
